@@ -15,7 +15,8 @@ BASE = {
 
 def models(tier):
     ready = [("m", 0, n) for n in ("req", "dwr", "dwa", "dpr", "dpa", "req_missing", "req_unkapp", "req_foreign", "unkcmd", "untyped",
-                                   "ans_unknown", "ans_nohost", "ans_norc", "dwa_nohost", "dwa_norc")]
+                                   "ans_unknown", "ans_nohost", "ans_norc", "dwa_nohost", "dwa_norc",
+                                   "dwr_e2e0", "dwr_hbh0", "req_e2e0", "ans_T_replay")]
     ready += [("ans", 0), ("ans", 1), ("ans2", 0), ("tick", 2)]
     m1 = monitors.ScenarioModel("inbound-ready", BASE, ready, [monitors.AnswerMonitor], max_socks=1,
                                 prelude=[("accept",), ("m", 0, "cer_p0")])
@@ -24,7 +25,7 @@ def models(tier):
     m1r = monitors.ScenarioModel("inbound-ready-handler-raises", raising,
                                  [("m", 0, n) for n in ("req", "dwr", "req_missing", "ans_unknown", "untyped")] + [("tick", 2)],
                                  [monitors.AnswerMonitor], max_socks=1, prelude=[("accept",), ("m", 0, "cer_p0")])
-    unid = [("m", 0, n) for n in ("cer_p0", "cer_unknown", "cer_nocommon", "cer_nohost", "dwr", "dwa", "dpr", "dpa", "req", "ans_unknown",
+    unid = [("m", 0, n) for n in ("cer_p0", "cer_unknown", "cer_nocommon", "cer_nohost", "cer_badip", "dwr", "dwa", "dpr", "dpa", "req", "ans_unknown",
                                   "cea_unsolicited")] + [("tick", 1), ("b", 0, "cer_unknown", "req"), ("b", 0, "cer_p0", "req"), ("b", 0, "cer_nocommon", "dwr")]
     m2 = monitors.ScenarioModel("inbound-unidentified", BASE, unid, [monitors.AnswerMonitor], max_socks=1, prelude=[("accept",)])
     outb = copy.deepcopy(BASE)
